@@ -43,6 +43,35 @@ CHECKS = {
              "by inference with a monitor on every activation quantization; zero-weight Linear/Conv2d must output the bias.",
         note="Float reference must itself be finite (batches are scaled down until it is). Known findings C16-F27/F27b "
              "(values within a rounding of the dtype maximum) are matched by a mechanism computed from the witness."),
+    "C04": dict(
+        technique="sanitizer + differential runtime monitor: ASan/UBSan build of the C++ unpack kernel (from the working "
+                  "tree) driven through the repo's own glue, compared with the Python kernel, the router in three modes "
+                  "and a numpy reference over all 256 byte values and every leading-dimension residue",
+        level="exploration", ref="4/C04",
+        text="pack/unpack round trips for every leading dimension 1..64 (1..257 thorough), all 256 byte values through "
+             "every route of torch.ops.quanto.unpack (python, sanitized C++, extensions on/off, failing extension), "
+             "packed-tensor operations against the unpacked reference; ASan/UBSan log must hold no report.",
+        note="Byte and residue spaces are enumerated completely; shapes/layouts are sampled. A clean sanitizer log is 'no "
+             "report on the observed calls'. CUDA/MPS kernels cannot run here."),
+    "C05": dict(
+        technique="runtime monitor at the dispatch boundary: shadow execution of every monitored torch function on "
+                  "dequantized operands (class-level wrapper on QTensor.__torch_function__), judged per class of operation",
+        level="exploration", ref="3.1, 4/C05",
+        text="Random and directed op programs (depth 1..8) over mixed quantized/plain operands run on the real tensor "
+             "subclasses; each monitored call is shadow-executed on the dequantized operands and compared byte-wise "
+             "(moves), within ulps (rescale/pass-through), within one output step (re-quantization) or within the dot-"
+             "product bound (contractions); raising where the float program is valid is a violation except documented refusals.",
+        note="Per-step judgement from the actual operands of each step (errors do not compound). Known findings C05-F5b, "
+             "F9, F13, QB1 are matched by mechanism. Crash classes of C07 are steered around. CUDA paths not executed."),
+    "C06": dict(
+        technique="runtime invariant at hooks: metadata invariant evaluated on every quantized tensor returned at "
+                  "QTensor.__torch_function__ and both __torch_dispatch__ entry points, and on API results of histories",
+        level="exploration", ref="3.1, 4/C06",
+        text="Histories (initial tensor x up to 10 ops/moves/copies/state_dict round trips/freezes) run with the invariant "
+             "armed at both dispatch levels: shape/dtype/device equal those of dequantize(), one code per element, dense "
+             "packed payload, scale/zero-point layout for the declared axis, storage dtype = qtype's; moves/copies keep "
+             "codes and (cast) scales byte-identical.",
+        note="Inner tensors are read through __tensor_flatten__. Grouped low-bit scale layout is checked on counts only."),
 }
 
 PLANNED = {}
